@@ -104,4 +104,198 @@ theorem k_arrayEnsureCapacity_eq (a : WArr) (size : Nat) :
     simp only [tryR_ok, copyL_words]
   · resolve_ifs
 
+when_kernel Gzx.Gen.K16b.arrayAppendBit in
+/-- `BitArray.AppendBit(bit)` = `WArr.appendBit`: ensureCapacity(size+1), set bit `size` if `bit`, `size++` -/
+theorem k_arrayAppendBit_eq (a : WArr) (bit : Bool) :
+    Gen.K16b.arrayAppendBit (words a.words) a.size bit = expAS (WArr.appendBit a bit) := by
+  simp only [Gen.K16b.arrayAppendBit, WArr.appendBit, expAS]
+  rw [show (a.size : Int) + 1 = ((a.size + 1 : Nat) : Int) by omega, k_arrayEnsureCapacity_eq]
+  simp only [tryR_ok]
+  have hs : (WArr.ensureCapacity a (a.size + 1)).size = a.size := by
+    unfold WArr.ensureCapacity; split <;> rfl
+  cases bit with
+  | false => simp [hs, Except.map]
+  | true =>
+    simp only [if_true, hs]
+    rw [updC (WArr.ensureCapacity a (a.size + 1)).words (a.size / 32) (fun w => w ||| 1 <<< (a.size % 32))]
+    · cases updWord (WArr.ensureCapacity a (a.size + 1)).words (a.size / 32) _ <;> simp [Except.map]
+    · gonorm; omega
+    · gonorm; omega
+    · intro w; gonorm
+      rw [bit_natCast _ (a.size % 32) (by omega) (by omega), ior_natCast]
+
+when_kernel Gzx.Gen.K16b.arrayXor in
+/-- `BitArray.Xor(other)` = `WArr.xor`: size check (error, unchanged), then the `(size+31)/32` words that hold bits -/
+theorem k_arrayXor_eq (a other : WArr) :
+    Gen.K16b.arrayXor (words a.words) a.size (words other.words) other.size = expEA a.words (WArr.xor a other) := by
+  simp only [Gen.K16b.arrayXor, WArr.xor]
+  by_cases h1 : a.size ≠ other.size
+  · resolve_ifs; rfl
+  resolve_ifs
+  generalize hF : (fun (ws : List Nat) (i : Nat) => do
+          let o ← wordAt other.words i
+          updWord ws i (fun w => w ^^^ o)) = F
+  rw [List.range_eq_range', loop_up_fold' words F 0 ((a.size + 31) / 32) a.words rfl (by rw [tripUp_one]; gonorm; omega) (by omega),
+    ofRes_thenR]
+  · cases hf : (List.range' 0 ((a.size + 31) / 32)).foldlM F a.words with
+    | ok ws => rfl
+    | error e =>
+      refine (expEA_error _ ?_).symm
+      subst hF
+      refine foldlM_error NotArg _ (fun _ i _ h => ?_) _ _ _ hf
+      simp only [bind, Except.bind] at h
+      cases hw : wordAt other.words i with
+      | error e' => rw [hw] at h; injection h with h; subst h; exact wordAt_error hw
+      | ok o => rw [hw] at h; exact updWord_error h
+  · subst hF
+    intro i _ _ ws
+    simp only [Gen.K16b.arrayXor_body1]
+    rw [idxC other.words i _ rfl]
+    simp only [bind, Except.bind]
+    cases wordAt other.words i with
+    | error e => rfl
+    | ok o =>
+      simp only []
+      rw [updC ws i (fun w => w ^^^ o) _ rfl rfl (fun w => ixor_natCast w o)]
+      cases updWord ws i _ <;> rfl
+
+when_kernel Gzx.Gen.K16b.arraySetRange in
+/-- `BitArray.SetRange(start, end)` = `WArr.setRange`: argument check (error, unchanged), empty range, then for every word
+    `i` in `[start/32, (end-1)/32]` the mask `(2 << lastBit) - (1 << firstBit)` truncated to 32 bits is OR-ed in -/
+theorem k_arraySetRange_eq (a : WArr) (start end_ : Nat) :
+    Gen.K16b.arraySetRange (words a.words) a.size start end_ = expEA a.words (WArr.setRange a start end_) := by
+  simp only [Gen.K16b.arraySetRange, WArr.setRange]
+  by_cases h1 : end_ < start ∨ end_ > a.size
+  · resolve_ifs; rfl
+  by_cases h2 : end_ = start
+  · resolve_ifs; rfl
+  resolve_ifs
+  have he : (end_ : Int) - 1 = ((end_ - 1 : Nat) : Int) := by omega
+  generalize hF : (fun (ws : List Nat) (i : Nat) =>
+      updWord ws i (fun w => w ||| WArr.rangeMask start (end_ - 1) (start / 32) ((end_ - 1) / 32) i)) = F
+  rw [he, loop_up_fold' words F (start / 32) ((end_ - 1) / 32 + 1 - start / 32) a.words rfl
+        (by rw [tripUp_one]; gonorm; omega) (by gonorm; omega), ofRes_thenR]
+  · cases hf : (List.range' (start / 32) ((end_ - 1) / 32 + 1 - start / 32)).foldlM F a.words with
+    | ok ws => rfl
+    | error e =>
+      refine (expEA_error _ ?_).symm
+      subst hF
+      exact foldlM_error NotArg _ (fun _ _ _ h => updWord_error h) _ _ _ hf
+  · subst hF
+    intro i hi1 hi2 ws
+    simp only [Gen.K16b.arraySetRange_body1]
+    have hfi : ((i : Int) == Int.tdiv (start : Int) 32) = decide (i = start / 32) := by
+      gonorm; rw [Bool.eq_iff_iff]; simp only [beq_iff_eq, decide_eq_true_eq]; omega
+    have hli : ((i : Int) == Int.tdiv ((end_ - 1 : Nat) : Int) 32) = decide (i = (end_ - 1) / 32) := by
+      gonorm; rw [Bool.eq_iff_iff]; simp only [beq_iff_eq, decide_eq_true_eq]; omega
+    rw [hfi, hli]
+    rw [updC ws i (fun w => w ||| WArr.rangeMask start (end_ - 1) (start / 32) ((end_ - 1) / 32) i) _ rfl rfl]
+    · cases updWord ws i _ <;> rfl
+    · intro w
+      rw [← ior_natCast]
+      congr 1
+      unfold WArr.rangeMask
+      by_cases c1 : i = start / 32 <;> by_cases c2 : i = (end_ - 1) / 32 <;>
+        simp (disch := assumption) only [decide_eq_true_eq, if_pos, if_neg] <;>
+        gonorm <;> refine rangeMask_cast _ _ ?_ _ _ (by omega) (by omega) <;> omega
+
+/-- what the regenerated `IsRange` must return: `(result, failed)` -/
+def expIsRange : Res Bool → Res (Bool × Bool)
+  | .ok r => .ok (r, false)
+  | .error .illegalArg => .ok (false, true)
+  | .error e => .error e
+
+theorem isRangeLoop_error (ws : List Nat) (start e fi li : Nat) (value : Bool) :
+    ∀ (is : List Nat) (er : Fault), WArr.isRangeLoop ws start e fi li value is = .error er → NotArg er := by
+  intro is
+  induction is with
+  | nil => intro er h; simp [WArr.isRangeLoop] at h
+  | cons i is ih =>
+    intro er h
+    unfold WArr.isRangeLoop at h
+    cases hw : ws[i]? with
+    | none => rw [hw] at h; injection h with h; subst h; intro h'; cases h'
+    | some w =>
+      rw [hw] at h
+      by_cases hc : (w &&& WArr.rangeMask start e fi li i) ≠ (if value then WArr.rangeMask start e fi li i else 0)
+      · simp only [if_pos hc] at h; cases h
+      · simp only [if_neg hc] at h; exact ih er h
+
+/-- the loop of `IsRange` (early `return false`) is the model's recursion over the word indices -/
+theorem isRange_loop (ws : List Nat) (start e : Nat) (value : Bool) (body : Int → Unit → Ctl Unit (Bool × Bool)) :
+    ∀ (n a : Nat),
+      (∀ i, a ≤ i → i < a + n → body (i : Int) () =
+        match ws[i]? with
+        | none => .panic oob
+        | some w =>
+          if (w &&& WArr.rangeMask start e (start / 32) (e / 32) i) ≠
+              (if value then WArr.rangeMask start e (start / 32) (e / 32) i else 0) then .ret (false, false)
+          else .next ()) →
+      loop body 1 n (a : Int) () =
+        match WArr.isRangeLoop ws start e (start / 32) (e / 32) value (List.range' a n) with
+        | .ok true => .next ()
+        | .ok false => .ret (false, false)
+        | .error er => .panic er := by
+  intro n
+  induction n with
+  | zero => intro a _; simp [loop, List.range', WArr.isRangeLoop]
+  | succ n ih =>
+    intro a hb
+    rw [loop_succ, hb a (Nat.le_refl a) (by omega)]
+    simp only [List.range', WArr.isRangeLoop]
+    cases hw : ws[a]? with
+    | none => rfl
+    | some w =>
+      by_cases hc : (w &&& WArr.rangeMask start e (start / 32) (e / 32) a) ≠
+          (if value then WArr.rangeMask start e (start / 32) (e / 32) a else 0)
+      · simp only [if_pos hc]
+      · simp only [if_neg hc]
+        have e1 : (a : Int) + 1 = ((a + 1 : Nat) : Int) := by omega
+        rw [e1]
+        exact ih (a + 1) (fun i h1 h2 => hb i (by omega) (by omega))
+
+when_kernel Gzx.Gen.K16b.arrayIsRange in
+/-- `BitArray.IsRange(start, end, value)` = `WArr.isRange`: argument check, empty range, then word by word the masked
+    bits against `mask` / 0 with `return false` at the first difference -/
+theorem k_arrayIsRange_eq (a : WArr) (start end_ : Nat) (value : Bool) :
+    Gen.K16b.arrayIsRange (words a.words) a.size start end_ value = expIsRange (WArr.isRange a start end_ value) := by
+  simp only [Gen.K16b.arrayIsRange, WArr.isRange]
+  by_cases h1 : end_ < start ∨ end_ > a.size
+  · resolve_ifs; rfl
+  by_cases h2 : end_ = start
+  · resolve_ifs; rfl
+  resolve_ifs
+  have he : (end_ : Int) - 1 = ((end_ - 1 : Nat) : Int) := by omega
+  have hi0 : Int.tdiv (start : Int) 32 = ((start / 32 : Nat) : Int) := by gonorm; omega
+  have hn : tripUp (Int.tdiv (start : Int) 32) (Int.tdiv ((end_ - 1 : Nat) : Int) 32 + 1) 1 = (end_ - 1) / 32 + 1 - start / 32 := by
+    rw [tripUp_one]; gonorm; omega
+  rw [he, hn, hi0, isRange_loop a.words start (end_ - 1) value _ ((end_ - 1) / 32 + 1 - start / 32) (start / 32)]
+  · cases hr : WArr.isRangeLoop a.words start (end_ - 1) (start / 32) ((end_ - 1) / 32) value
+        (List.range' (start / 32) ((end_ - 1) / 32 + 1 - start / 32)) with
+    | ok r => cases r <;> rfl
+    | error er =>
+      have := isRangeLoop_error _ _ _ _ _ _ _ _ hr
+      cases er <;> first | rfl | exact absurd rfl this
+  · intro i hi1 hi2
+    simp only [Gen.K16b.arrayIsRange_body1]
+    have hfi : ((i : Int) == ((start / 32 : Nat) : Int)) = decide (i = start / 32) := by
+      rw [Bool.eq_iff_iff]; simp only [beq_iff_eq, decide_eq_true_eq]; omega
+    have hli : ((i : Int) == Int.tdiv ((end_ - 1 : Nat) : Int) 32) = decide (i = (end_ - 1) / 32) := by
+      gonorm; rw [Bool.eq_iff_iff]; simp only [beq_iff_eq, decide_eq_true_eq]; omega
+    rw [hfi, hli]
+    have hm : wrap 32 (wrap 32 (ishl 2 (wrap 64 (if decide (i = (end_ - 1) / 32) = true then Int.tmod ((end_ - 1 : Nat) : Int) 32 else 31))) -
+        wrap 32 (ishl 1 (wrap 64 (if decide (i = start / 32) = true then Int.tmod (start : Int) 32 else 0)))) =
+        ((WArr.rangeMask start (end_ - 1) (start / 32) ((end_ - 1) / 32) i : Nat) : Int) := by
+      unfold WArr.rangeMask
+      by_cases c1 : i = start / 32 <;> by_cases c2 : i = (end_ - 1) / 32 <;>
+        simp (disch := assumption) only [decide_eq_true_eq, if_pos, if_neg] <;>
+        gonorm <;> refine rangeMask_cast32 _ _ ?_ _ _ (by omega) (by omega) <;> omega
+    rw [hm, idxC a.words i _ rfl]
+    unfold wordAt
+    cases hw : a.words[i]? with
+    | none => rfl
+    | some w =>
+      simp only [iand_natCast]
+      cases value <;> simp [Int.natCast_inj]
+
 end Gzx.Obligations.K16bArr
